@@ -365,6 +365,8 @@ func initMemdbModels() {
 			e.famDecl(memFam("txn", t, "has"), ks, "Bool")
 			e.famDecl(memFam("txn", t, "row"), ks, "Ref")
 		}
+		// a new transaction: nothing committed by it yet
+		e.hwrite(s, "$g.committed", nil, "Bool", nil, "false")
 		setRes(s, S("%s", e.freshRef(s, "txn")))
 		rest(s)
 	}
